@@ -5,7 +5,6 @@ package main
 
 import (
 	"go/ast"
-	"go/token"
 	"regexp"
 	"strings"
 
@@ -66,9 +65,10 @@ func flattenBody(p *packages.Package, fd *ast.FuncDecl, subst map[string]string,
 			walk(x.List)
 		case *ast.IfStmt:
 			// `if !c { A } else { B }` is flattened as `if c { B } else { A }`
-			if u, ok := ast.Unparen(x.Cond).(*ast.UnaryExpr); ok && u.Op == token.NOT && x.Else != nil {
+			bare, neg := stripNot(x.Cond)
+			if neg && x.Else != nil {
 				if eb, ok := x.Else.(*ast.BlockStmt); ok {
-					emit(x, "if", x.Init, u.X)
+					emit(x, "if", x.Init, bare)
 					walk(eb.List)
 					out = append(out, flatStmt{"else", x.Body})
 					walk(x.Body.List)
@@ -76,7 +76,11 @@ func flattenBody(p *packages.Package, fd *ast.FuncDecl, subst map[string]string,
 					return
 				}
 			}
-			emit(x, "if", x.Init, x.Cond)
+			if !neg {
+				emit(x, "if", x.Init, bare)
+			} else {
+				emit(x, "if", x.Init, x.Cond)
+			}
 			walk(x.Body.List)
 			if x.Else != nil {
 				out = append(out, flatStmt{"else", x.Else})
